@@ -281,6 +281,23 @@ func TestC06(t *testing.T) {
 // ---- C19 ---------------------------------------------------------------------------------------
 
 func famC19() []appFamily {
+	return append(famC19Base(), appFamily{"request-in-a-discarded-branch-leaves-no-trace", func(h *AppH, o *tokOracle) {
+		// a routing-rule change that succeeds inside a governance proposal whose later message fails
+		// (x/gov discards the branch): afterwards the relay chain must treat traffic as before
+		A, B, C := h.names[0], h.names[1], h.names[2]
+		h.SetRules(1, []string{A + "," + C + ",NFT"})
+		h.SetRulesDiscarded(1, []string{"*,*,*"})
+		p := h.sendOK(0, Pkt{1, A, C, B, "tibcmock", "~not-whitelisted"})
+		h.hopRecv(1, 0, p) // refused by the relay chain: receipt + error acknowledgement, nothing forwarded
+		h.SetRulesDiscarded(1, []string{})
+		h.SetRulesDiscarded(1, []string{A + "," + C + ",tibcmock"})
+		q := h.sendOK(0, Pkt{2, A, C, B, "tibcmock", "~still-not-whitelisted"})
+		h.hopRecv(1, 0, q)
+		h.hopAck(0, 1, p, unauthAck)
+	}})
+}
+
+func famC19Base() []appFamily {
 	return []appFamily{
 		{"failing-messages-of-every-kind", func(h *AppH, o *tokOracle) {
 			A, B, C := h.names[0], h.names[1], h.names[2]
